@@ -344,5 +344,64 @@ def r17_6(ctx):
              cv.loc(fl_conv[0]) if fl_conv else cv.loc()))
 
 
+def r17_7(ctx):
+    """R17.7 (a) a menu is entered only if it has entries: wherever the model steps to `node.list` and then looks that node
+    up in the shown rows, the step is guarded by `node.list` being non-empty (an empty menu gives `None`, which is in no
+    list: ValueError); (b) changeable() answers true only for a node whose own prompt is active - every non-False return
+    is dominated by `node.prompt and expr_value(node.prompt[1])` (a dimmed row in show-all mode must not open the input
+    dialog: the typed value would be stored on an option that does not accept one); (c) the input filter of the dialog
+    knows both hex prefixes (C06 R06.10c), like the validator that accepted the text."""
+    from ..flow import decompose
+    from .common import expand_locals, hex_prefix_both_cases
+    repo = ctx.repo
+    f = repo.func("esp_menuconfig.model:MenuConfigState.jump_to")
+    ctx.analysed(f.qual)
+    fl = Flow(f.node, resolver=Resolver(f.node)).run()
+    steps = [n for n in ast.walk(f.node) if isinstance(n, ast.Assign) and isinstance(n.targets[0], ast.Name) and ast.unparse(n.value) == f"{n.targets[0].id}.list"]
+    if not steps:
+        raise AnchorError("jump_to: no step into node.list")
+    for i, n in enumerate(steps):
+        v = n.targets[0].id
+        construct = f"MenuConfigState.jump_to/step into `{v}.list` #{i + 1} only for a node that has entries"
+        atoms = set()
+        for k, pol in (fl.guards_at(n) or set()):
+            try:
+                e = ast.parse(expand_locals(f.node, ast.parse(k, mode="eval").body), mode="eval").body
+            except SyntaxError:
+                continue
+            for a, p in decompose(e, pol):
+                atoms.add((ast.unparse(a), p))
+        (ctx.ok(construct, f.loc(n)) if (f"{v}.list", True) in atoms else
+         ctx.bad(construct, f"`{v} = {v}.list` runs under {sorted(atoms)}: for a menu or choice without entries `{v}` becomes None and the "
+                 "following `.index()` on the shown rows raises ValueError", f.loc(n)))
+    c = repo.func("esp_menuconfig.model:MenuConfigState.changeable")
+    ctx.analysed(c.qual)
+    flc = Flow(c.node, resolver=Resolver(c.node)).run()
+    k = 0
+    for r in ast.walk(c.node):
+        if not isinstance(r, ast.Return) or (isinstance(r.value, ast.Constant) and r.value.value is False):
+            continue
+        k += 1
+        construct = f"MenuConfigState.changeable/return #{k} only for a node whose own prompt is active"
+        gs = flc.guards_at(r) or set()
+        ok = ("node.prompt", True) in gs and ("expr_value(node.prompt[1])", True) in gs or ("node.prompt and expr_value(node.prompt[1])", True) in gs
+        (ctx.ok(construct, c.loc(r)) if ok else
+         ctx.bad(construct, f"`{ast.unparse(r)[:60]}` is reached without the prompt of this node being active (guards: {sorted(gs)}): an invisible "
+                 "option shown dimmed in show-all mode is reported changeable", c.loc(r)))
+    hex_prefix_both_cases(ctx, [m for m in ("esp_menuconfig.app", "esp_menuconfig.model", "esp_menuconfig.formatting") if m in repo.modules])
+    # (d) the validator itself cannot raise on the tree's data; (e) a signed hex text is refused
+    from .common import checked_conversions
+    checked_conversions(ctx, [f"{FMT}:check_valid"], validated_params=("s",))
+    cv = repo.func(f"{FMT}:check_valid")
+    construct = "check_valid/HEX: a sign is refused (the text is applied as `0x` + text)"
+    signs = [n for n in ast.walk(cv.node) if isinstance(n, (ast.Compare, ast.Call)) and
+             {"+", "-"} <= {ch for c in ast.walk(n) if isinstance(c, ast.Constant) and isinstance(c.value, str) for ch in c.value}]
+    prefixed = [n for n in ast.walk(cv.node) if isinstance(n, ast.Call) and isinstance(n.func, ast.Name) and n.func.id == "int" and n.args
+                and any(isinstance(c, ast.Constant) and c.value in ("0x", "0X") for c in ast.walk(n.args[0]))]
+    (ctx.ok(construct, cv.loc((signs or prefixed)[0])) if signs or prefixed else
+     ctx.bad(construct, "`-0`, `+ff`, `-0x0` parse as non-negative numbers and pass the validator, but Symbol.set_value() rejects `0x-0` / `0x+ff`: "
+             "the dialog closes and the option keeps its old value", cv.loc()))
+
+
 def rules():
-    return [("R17.1", r17_1, 6), ("R17.5", r17_5, 4), ("R17.2", r17_2, 13), ("R17.3", r17_3, 4), ("R17.4", r17_4, 6), ("R17.6", r17_6, 3)]
+    return [("R17.7", r17_7, 5), ("R17.1", r17_1, 6), ("R17.5", r17_5, 4), ("R17.2", r17_2, 13), ("R17.3", r17_3, 4), ("R17.4", r17_4, 6), ("R17.6", r17_6, 3)]
